@@ -75,7 +75,13 @@ def as_symseq(interp, it):
     if isinstance(it, V.RangeIter):
         return V.SymSeq(it.n, lambda i: i)
     if isinstance(it, V.ZipIter):
+        if it.consumed:
+            return V.SymSeq(0, lambda i: None, distinct=True)   # a zip object is exhausted by its first traversal
+        it.consumed = True
         parts = [as_symseq(interp, p) if V.concrete_iter(p) is None else conc_seq(p) for p in it.parts]
+        if any((isinstance(p.length, int) and p.length == 0) or (isinstance(p.length, z3.ExprRef) and z3.is_int_value(z3.simplify(p.length))
+               and z3.simplify(p.length).as_long() == 0) for p in parts):
+            return V.SymSeq(0, lambda i: None, distinct=True)   # zip stops at the shortest part: nothing
         n = parts[0].length
         for p in parts[1:]:
             # zip stops at the shortest; all uses in the repo zip equal-length sequences: make it an obligation-free min
